@@ -180,6 +180,17 @@ def jump (toks : List String) : Option String := do
       match r.2 with
       | none => pure s!"jump call={showCall r.1} out=exhausted n=0"
       | some (o, dx, n) => pure s!"jump call={showCall r.1} out={showRats o} dx={showRat dx} n={n}"
+  | "vmfpoint" => do
+      let r := vmfNewPoint (← kvRat toks "kappa") (← kvRat toks "norm") (← kvRat toks "expk") (← kvRat toks "twopi")
+                 (← kvRat toks "u1") (← kvRat toks "u2")
+      pure s!"jump call={showCall .random2} phi={showRat r.1} logarg={showRat r.2}"
+  | "vmfrot" => do
+      let g := vmfGamma (← kvRat toks "mu1") (← kvRat toks "acos") (← kvRat toks "twopi")
+      match (← kvRats toks "xi") with
+      | [a, b, c] =>
+          let o := rot (← kvRat toks "cb") (← kvRat toks "sb") (← kvRat toks "cg") (← kvRat toks "sg") (a, b, c)
+          pure s!"jump gamma={showRat g} out={showRats [o.1, o.2.1, o.2.2]}"
+      | _ => none
   | "ubirth" => do
       let ps := birthGenArgs (zip2 (← kvRats toks "a") (← kvRats toks "b"))
       pure ("jump call=" ++ "+".intercalate (ps.map fun p => showCall (.uniform p.1 p.2)))
